@@ -197,11 +197,14 @@ func (c *CrossingEdgeQuery) candidatesEdgeMap(a, b Point) EdgeMap {
 		// Typically this method is called many times, so it is worth checking
 		// whether the edge map is empty or already consists of a single entry for
 		// this shape, and skip clearing edge map in that case.
-		shape := c.index.Shape(0)
-
-		// Note that we leave the edge map non-empty even if there are no candidates
-		// (i.e., there is a single entry with an empty set of edges).
-		edgeMap[shape] = c.candidates(a, b, shape)
+		//
+		// The single shape need not have id 0: ids are not reused after a shape
+		// has been removed from the index.
+		for _, shape := range c.index.shapes {
+			// Note that we leave the edge map non-empty even if there are no candidates
+			// (i.e., there is a single entry with an empty set of edges).
+			edgeMap[shape] = c.candidates(a, b, shape)
+		}
 		return edgeMap
 	}
 
